@@ -76,5 +76,5 @@ def hyp_cases(draw, tier):
 
 
 PARTS = [
-    Part("histories", run, strategy=hyp_cases, n={"quick": 1500, "thorough": 50000}),
+    Part("histories", run, strategy=hyp_cases, n={"quick": 1500, "thorough": 200000}),
 ]
